@@ -49,6 +49,10 @@ CHECKS = {
    text="Machine.tla carries the per-environment location register (set by eval, saved and restored around argument evaluation, set by set!), stamps every error with a copy of it and of the call stack (each frame with its call-site node), keeps template positions through quasiquote and gives position-less nodes of a macro expansion the macro call site. For generated failing programs (19 error kinds under the wrapper chains of the shape family, in function bodies, handlers, macro templates and macro-built forms, rendered with seeded random layout) TLC predicts the node whose position the error must carry and the (frame name, call-site node) list; node ids are mapped to (line, col) of the rendered text and compared with (*LVal).Source() and CallStack() of the real error, also as captured inside a rethrowing handler.",
    note="Positions are compared as (line, col) of the node start; end positions and the diagnostic renderer are not covered. About one generated program in four ends in an error (221 in a quick run).",
    technique="TLA+ definitional machine run by TLC; predicted error node and frame list replayed on the code under random layout", ref="DESIGN.md 6 C18"),
+ "C10": dict(engine="Machine",
+   text="Machine.tla's next-state relation is a function: TLC reports maximum out-degree 1 over all generated programs, so the specification allows exactly one transcript per program, which is also compared with the real one. Every program (the Machine family plus a seeded family that prints, enumerates and compares maps, closures, errors carrying maps, nested containers, JSON documents, schema errors, gensyms through the standard library) is run repeatedly in fresh runtimes in one process at shuffled positions of the input stream (unrelated activity before it) and in separate processes; value, stderr, error message and data, location, stack and step count must be byte-identical.",
+   note="Nondeterminism with probability far below 1/(runs per program) is not excluded (7 runs quick, 13 thorough). Time- and host-dependent builtins are not generated, as the property excludes them.",
+   technique="TLA+ (TLC out-degree of the definitional machine) + repeated-run / multi-process comparison of real transcripts", ref="DESIGN.md 6 C10"),
 }
 
 NA_REASON = "check under construction (see DESIGN.md section 6); not yet claimed"
